@@ -239,7 +239,8 @@ def simplify_complex_numeric_expression(
     """
     left_part_str, symbolic_vars = transform_expression(complex_numeric_expression)
     left_part_expr = parse_expr(left_part_str)
-    simplified_expression = simplify(left_part_expr)
+    # expanding so that a common numeric factor (e.g., 0.5 * (...)) is not rounded on its own.
+    simplified_expression = expand(simplify(left_part_expr))
     return convert_expr_to_pddl(
         simplified_expression, symbolic_vars, decimal_digits=decimal_digits
     )
